@@ -306,6 +306,7 @@ func c10GenCase(seed int64, idx int) c10Case {
 	c.Status = []int{200, 200, 200, 200, 301, 302, 307, 308, 300, 404, 500, 204, 206, 999, 0, -1}[r.Intn(16)]
 	c.Header = http.Header{}
 	var base []byte
+	siteURL := "" // set by generators whose body belongs to a site-specific extractor
 	switch k := r.Intn(12); k {
 	case 0:
 		d, _ := c07GenDoc(r, tg, "https://pages.example/a/b.html", c07Scenario{ExoticForms: true})
@@ -356,6 +357,19 @@ func c10GenCase(seed int64, idx int) c10Case {
 			`{"data":{"children":[{"data":{"permalink":"/r/x/comments/1"}}]}}`, `{"data":{"children":[]}}`, `{"data":null}`, `{"id":"123","media_attachments":[{"external_video_id":"v1"}]}`,
 			`{"resourceUrl":"https://m.example/a.mp4","resourceThumbnail":"t.jpg","embedUrl":"/embed/1","uri":"u"}`, `{"media_attachments":"x"}`, `[]`, `null`, `{"id":{}}`}))
 		c.Kind = "sitespecific-json"
+		if r.Intn(2) == 0 {
+			// listing shapes with a declared count next to the array it counts: the two are independent
+			// server-controlled fields (count below, equal to, above the number of elements, negative, huge)
+			k := r.Intn(4)
+			var kids []string
+			for i := 0; i < k; i++ {
+				kids = append(kids, fmt.Sprintf(`{"kind":"t3","data":{"permalink":"/r/x/comments/%d/t/","url":"https://i.example/%d.png","id":"%d"}}`, i, i, i))
+			}
+			dist := []int{-1, 0, 1, 2, k, k + 1, k + 7, 1000000}[r.Intn(8)]
+			base = []byte(fmt.Sprintf(`{"kind":"Listing","data":{"after":null,"dist":%d,"modhash":"","children":[%s],"before":null},"count":%d,"total":%d}`, dist, strings.Join(kids, ","), dist, dist))
+			c.Kind = "sitespecific-json-counted-listing"
+			siteURL = pick(r, []string{"https://www.reddit.com/api/info.json?id=t3_abc", "https://www.reddit.com/api/info.json?id=t3_abc", "https://old.reddit.com/api/info.json?id=t3_x1", "https://www.reddit.com/r/x/"})
+		}
 		c.Header.Set("Content-Type", "application/json")
 	default:
 		base, c.Kind = []byte{}, "empty"
@@ -385,6 +399,9 @@ func c10GenCase(seed int64, idx int) c10Case {
 		"https://truthsocial.com/api/v1/statuses/123", "https://truthsocial.com/@user/posts/123", "https://truthsocial.com/@user", "https://truthsocial.com/api/v1/accounts/lookup?acct=abc",
 		"https://apipartner.ina.fr/assets/x", "https://www.reddit.com/api/info.json?id=t3_abc", "https://www.reddit.com/r/x/", "https://pages.example/sitemap.xml",
 	}) + fmt.Sprintf("?case=%d", idx)
+	if siteURL != "" && r.Intn(4) != 0 {
+		c.SeedURL = siteURL + fmt.Sprintf("?case=%d", idx)
+	}
 	if strings.Count(c.SeedURL, "?") > 1 {
 		c.SeedURL = strings.Replace(c.SeedURL, fmt.Sprintf("?case=%d", idx), fmt.Sprintf("&case=%d", idx), 1)
 	}
